@@ -20,9 +20,9 @@ pub struct Seed {
     /// 1: always part of the BFS alphabets; 2: part of the depth-2 alphabets only; 0: only if it
     /// is the representative of its effect class
     pub pin: u8,
-    /// false: the seed (and its truncations) is injected, but no byte / pair mutants are made
-    /// of it (seeds that only make sense as the second or third frame of a sequence)
-    pub mutate: bool,
+    /// 2: full mutation; 1: the seed and its truncations only; 0: the seed only (members of
+    /// systematic seed families, seeds that only make sense inside a sequence)
+    pub mutate: u8,
 }
 
 #[derive(Clone, Copy)]
@@ -170,6 +170,10 @@ fn conn_seeds(me: &[u8], peer: &[u8], l: &Learned, v6: bool) -> Vec<IpSeed> {
     est("syn-in-window", snd, rcv, SYN, &[2, 4, 2, 0], &[], false);
     est("ack-unsent", snd, rcv.wrapping_add(1000), ACK, &[], &[], true);
     est("urg-all-flags", snd, rcv, 0x3f & !(SYN | RST), &[], b"u", true);
+    // acknowledges one octet beyond what an ESTABLISHED socket has sent: exactly the FIN of the
+    // variant C world (FIN-WAIT-1 -> FIN-WAIT-2)
+    est("ack-of-fin", snd, rcv.wrapping_add(1), ACK, &[], &[], true);
+    est("fin-ack-of-fin", snd, rcv.wrapping_add(1), ACK | FIN, &[], &[], true);
     let irs = 0x2000_0000u32;
     let iss1 = l.synsent_iss.wrapping_add(1);
     let mut ss = |name: &str, seq: u32, ack: u32, flags: u8, opts: &[u8], effect: bool| {
@@ -247,6 +251,42 @@ fn tcp_edge_seeds(me: &[u8], peer: &[u8], l: &Learned, v6: bool) -> Vec<IpSeed> 
     v
 }
 
+/// ICMP error messages whose quotation of the offending packet is cut to EVERY length from 0
+/// to the whole quoted packet, everything else consistent (outer length fields, checksums and,
+/// through the caller, 6LoWPAN compression). Quoted: (i) a UDP datagram from our bound port,
+/// (ii) a segment of our established TCP connection, (iii) an echo request with our ident.
+/// Names: <fam>/icmp-cut/<type>.<code>/<quoted>/<len>.
+fn icmp_cut_seeds(l: &Learned, v6: bool) -> Vec<IpSeed> {
+    let mut v = vec![];
+    let (me, peer): (&[u8], &[u8]) = if v6 { (&IFACE6, &PEER6) } else { (&IFACE4, &PEER4) };
+    let fam = if v6 { "v6" } else { "v4" };
+    let t = tcp(me, peer, P_EST, P_PEER_EST, l.est_iss.wrapping_add(1), PEER_ISN.wrapping_add(1), ACK, 128, &[], &[]);
+    let quoted: [(&str, Vec<u8>); 3] = [
+        ("udp", ip(me, peer, 17, &udp(me, peer, P_UDP, 9, b"xy"))),
+        ("tcp", ip(me, peer, 6, &t)),
+        (
+            "echo",
+            if v6 { ip(me, peer, 58, &icmp6(me, peer, 128, 0, &echo_body(ICMP_IDENT, 3, b"ping"))) } else { ip(me, peer, 1, &icmp4(8, 0, [0x12, 0x34, 0, 3], b"ping")) },
+        ),
+    ];
+    let kinds: &[(u8, u8, u32)] = if v6 { &[(1, 4, 0), (1, 3, 0), (2, 0, 1280), (3, 0, 0), (4, 1, 40)] } else { &[(3, 3, 0), (3, 1, 0), (3, 4, 0x0240), (11, 0, 0), (12, 0, 0x1400_0000)] };
+    for &(ty, code, word) in kinds {
+        for (qn, q) in &quoted {
+            for len in 0..=q.len() {
+                let pkt = if v6 {
+                    let mut b = word.to_be_bytes().to_vec();
+                    b.extend_from_slice(&q[..len]);
+                    ipv6(peer, me, 58, 64, &icmp6(peer, me, ty, code, &b))
+                } else {
+                    ip(peer, me, 1, &icmp4(ty, code, word.to_be_bytes(), &q[..len]))
+                };
+                v.push(s(&format!("{}/icmp-cut/{}.{}/{}/{}", fam, ty, code, qn, len), pkt, false));
+            }
+        }
+    }
+    v
+}
+
 fn v4_seeds(cfg: Cfg, l: &Learned) -> Vec<IpSeed> {
     let (me, peer) = (&IFACE4[..], &PEER4[..]);
     let bcast = [192, 168, 69, 255];
@@ -263,6 +303,7 @@ fn v4_seeds(cfg: Cfg, l: &Learned) -> Vec<IpSeed> {
     v.push(s("v4/icmp/time-exceeded-embeds-udp", ip(peer, me, 1, &icmp4(11, 0, [0; 4], &emb_udp)), true));
     v.push(s("v4/icmp/unreach-frag-needed-embeds-tcp", ip(peer, me, 1, &icmp4(3, 4, [0, 0, 2, 0x40], &emb_tcp)), true));
     v.push(s("v4/icmp/unreach-short-embed", ip(peer, me, 1, &icmp4(3, 3, [0; 4], &emb_udp[..24])), false));
+    v.extend(icmp_cut_seeds(l, false));
     v.push(s("v4/icmp/redirect", ip(peer, me, 1, &icmp4(5, 1, GW4, &emb_udp)), false));
     v.push(s("v4/icmp/timestamp", ip(peer, me, 1, &icmp4(13, 0, [0, 1, 0, 1], &[0; 12])), false));
     let q = |dst: &[u8; 4], m: Vec<u8>| ipv4(&GW4, dst, 2, &m, V4Opt { ttl: 1, ..V4 });
@@ -272,7 +313,7 @@ fn v4_seeds(cfg: Cfg, l: &Learned) -> Vec<IpSeed> {
     v.push(s("v4/igmp/report", q(&GROUP4, igmp(0x16, 0, &GROUP4)), false));
     v.push(s("v4/igmp/leave", q(&[224, 0, 0, 2], igmp(0x17, 0, &GROUP4)), false));
     v.push(s("v4/udp/open-port", ip(peer, me, 17, &udp(peer, me, 4000, P_UDP, b"hello udp")), true));
-    v.push(s("v4/udp/closed-port", ip(peer, me, 17, &udp(peer, me, 4000, 9, b"nobody home")), cfg.variant == 0));
+    v.push(s("v4/udp/closed-port", ip(peer, me, 17, &udp(peer, me, 4000, 9, b"nobody home")), cfg.variant != 1));
     v.push(s("v4/udp/broadcast", ip(peer, &bcast, 17, &udp(peer, &bcast, 4000, P_UDP, b"to all")), true));
     v.push(s("v4/udp/limited-broadcast", ip(peer, &[255; 4], 17, &udp(peer, &[255; 4], 4000, P_UDP, b"to all")), true));
     v.push(s("v4/udp/multicast-group", ip(peer, &GROUP4, 17, &udp(peer, &GROUP4, 5353, P_UDP, b"mcast")), true));
@@ -283,8 +324,8 @@ fn v4_seeds(cfg: Cfg, l: &Learned) -> Vec<IpSeed> {
     v.push(s("v4/udp/mdns-port-source", ip(peer, me, 17, &udp(peer, me, 5353, l.dns_port, &dns_response(l.dns_txid, false, 0))), false));
     let syn = |dport: u16, opts: &[u8]| ip(peer, me, 6, &tcp(peer, me, 4444, dport, 0x3000_0000, 0, SYN, 8192, opts, &[]));
     v.push(s("v4/tcp/syn-listen-all-options", syn(P_LISTEN, &TCP_ALL_OPTS), true));
-    v.push(s("v4/tcp/syn-closed-port", syn(9, &[2, 4, 5, 0xb4]), cfg.variant == 0));
-    v.push(s("v4/tcp/ack-listen", ip(peer, me, 6, &tcp(peer, me, 4444, P_LISTEN, 1, 1, ACK, 100, &[], &[])), cfg.variant == 0));
+    v.push(s("v4/tcp/syn-closed-port", syn(9, &[2, 4, 5, 0xb4]), cfg.variant != 1));
+    v.push(s("v4/tcp/ack-listen", ip(peer, me, 6, &tcp(peer, me, 4444, P_LISTEN, 1, 1, ACK, 100, &[], &[])), cfg.variant != 1));
     v.push(s("v4/tcp/syn-data-listen", ip(peer, me, 6, &tcp(peer, me, 4445, P_LISTEN, 5, 0, SYN, 100, &[2, 4, 0, 100], b"early")), true));
     if !cfg.v6_peers() {
         v.extend(conn_seeds(me, peer, l, false));
@@ -416,14 +457,15 @@ fn v6_seeds(cfg: Cfg, l: &Learned) -> Vec<IpSeed> {
     v.push(s("v6/icmp/time-exceeded-embeds-udp", err(3, 0, 0, &emb_udp), true));
     v.push(s("v6/icmp/param-problem-embeds-udp", err(4, 1, 40, &emb_udp), false));
     v.push(s("v6/icmp/unreach-short-embed", err(1, 4, 0, &emb_udp[..44]), false));
+    v.extend(icmp_cut_seeds(l, true));
     // UDP / TCP
     v.push(s("v6/udp/open-port", ipv6(peer, me, 17, 64, &udp(peer, me, 4000, P_UDP, b"hello udp6")), true));
-    v.push(s("v6/udp/closed-port", ipv6(peer, me, 17, 64, &udp(peer, me, 4000, 9, b"nobody home")), cfg.variant == 0));
+    v.push(s("v6/udp/closed-port", ipv6(peer, me, 17, 64, &udp(peer, me, 4000, 9, b"nobody home")), cfg.variant != 1));
     v.push(s("v6/udp/nhc-port", ipv6(peer, me, 17, 64, &udp(peer, me, 0xf0b2, P_UDP_NHC, b"compressible")), true));
     v.push(s("v6/udp/all-nodes", ipv6(peer, &ALL_NODES6, 17, 64, &udp(peer, &ALL_NODES6, 4000, P_UDP, b"mcast6")), true));
     let syn = |dport: u16, opts: &[u8]| ipv6(peer, me, 6, 64, &tcp(peer, me, 4444, dport, 0x3000_0000, 0, SYN, 8192, opts, &[]));
     v.push(s("v6/tcp/syn-listen-all-options", syn(P_LISTEN, &TCP_ALL_OPTS), true));
-    v.push(s("v6/tcp/syn-closed-port", syn(9, &[2, 4, 5, 0xa0]), cfg.variant == 0));
+    v.push(s("v6/tcp/syn-closed-port", syn(9, &[2, 4, 5, 0xa0]), cfg.variant != 1));
     if cfg.v6_peers() {
         v.extend(conn_seeds(me, peer, l, true));
         v.extend(tcp_edge_seeds(me, peer, l, true));
@@ -445,7 +487,7 @@ fn v6_seeds(cfg: Cfg, l: &Learned) -> Vec<IpSeed> {
 }
 
 fn plain(name: &str, frame: Vec<u8>, effect: bool) -> Seed {
-    Seed { name: name.to_string(), frame, l4: None, hot: None, expect_effect: effect, pin: 0, mutate: true }
+    Seed { name: name.to_string(), frame, l4: None, hot: None, expect_effect: effect, pin: 0, mutate: 2 }
 }
 
 fn ethernet_seeds(cfg: Cfg, l: &Learned) -> Vec<Seed> {
@@ -469,10 +511,10 @@ fn ethernet_seeds(cfg: Cfg, l: &Learned) -> Vec<Seed> {
     let hot = |f: &Vec<u8>| Some(DHCP_OPTS_OFF..f.len());
     let mut dh = |name: &str, f: Vec<u8>, effect: bool| {
         let h = hot(&f);
-        v.push(Seed { name: name.to_string(), frame: f, l4: None, hot: h, expect_effect: effect, pin: 0, mutate: true });
+        v.push(Seed { name: name.to_string(), frame: f, l4: None, hot: h, expect_effect: effect, pin: 0, mutate: 2 });
     };
     let lease = [192, 168, 69, 50];
-    dh("dhcp/offer", dhcp_frame(2, l.dhcp_xid, &lease, Default::default()), cfg.variant == 0);
+    dh("dhcp/offer", dhcp_frame(2, l.dhcp_xid, &lease, Default::default()), cfg.variant != 1);
     dh("dhcp/ack", dhcp_frame(5, l.dhcp_xid, &lease, Default::default()), cfg.variant == 1);
     dh("dhcp/ack-timers-short-lease", dhcp_frame(5, l.dhcp_xid, &lease, DhcpExtra { lease: Some(60), timers: true, ..Default::default() }), cfg.variant == 1);
     dh("dhcp/ack-other-subnet-no-router", dhcp_frame(5, l.dhcp_xid, &[10, 1, 2, 3], DhcpExtra { mask: Some([255, 0, 0, 0]), router: None, ..Default::default() }), cfg.variant == 1);
@@ -551,7 +593,7 @@ fn ieee802154_seeds(cfg: Cfg, l: &Learned) -> Vec<Seed> {
     let add = |v: &mut Vec<Seed>, name: String, (frame, l4): (Vec<u8>, Option<L4Info>), effect: bool| {
         // smoltcp refuses 802.15.4 frames longer than 127 octets
         let effect = effect && frame.len() <= 127;
-        v.push(Seed { name, frame, l4, hot: None, expect_effect: effect, pin: 0, mutate: true });
+        v.push(Seed { name, frame, l4, hot: None, expect_effect: effect, pin: 0, mutate: 2 });
     };
     let compact = |p: &[u8]| {
         let ll = |a: &[u8]| a[0] == 0xfe && a[1] == 0x80 && a[2..8] == [0; 6];
@@ -663,7 +705,7 @@ fn ieee802154_seeds(cfg: Cfg, l: &Learned) -> Vec<Seed> {
     add(&mut v, "nhc-udp/4bit-4bit".into(), lowpan(&mac, &inline64, &udp_p(0xf0b2, P_UDP_NHC, b"nhc form 3"), Comp::Udp(3, true)), true);
     add(&mut v, "nhc-udp/ports-inline-checksum-elided".into(), lowpan(&mac, &inline64, &udp_p(4000, P_UDP, b"no csum"), Comp::Udp(0, false)), false); // elided checksum: dropped since the UDP/IPv6 zero-checksum fix
     add(&mut v, "nhc-udp/4bit-checksum-elided".into(), lowpan(&mac, &inline64, &udp_p(0xf0b2, P_UDP_NHC, b""), Comp::Udp(3, false)), false); // elided checksum: dropped
-    add(&mut v, "nhc-udp/closed-port".into(), lowpan(&mac, &inline64, &udp_p(4000, 9, b"closed"), Comp::Udp(0, true)), cfg.variant == 0);
+    add(&mut v, "nhc-udp/closed-port".into(), lowpan(&mac, &inline64, &udp_p(4000, 9, b"closed"), Comp::Udp(0, true)), cfg.variant != 1);
     if cfg.v6_peers() {
         let d = udp(p6, i6, 53, l.dns_port, &dns_response(l.dns_txid, true, 0));
         add(&mut v, "nhc-udp/dns-answer".into(), lowpan(&mac, &inline64, &ipv6(p6, i6, 17, 64, &d), Comp::Udp(0, true)), true);
@@ -761,13 +803,27 @@ pub fn catalogue(cfg: Cfg, l: &Learned) -> Vec<Seed> {
         v.retain(|sd| sd.frame.len() <= 127);
     }
     for sd in v.iter_mut() {
+        if sd.name.contains("/icmp-cut/") {
+            sd.mutate = 0;
+        }
+        if cfg.variant == 2 {
+            // variant C is about sequences; only segments for the closing connection get the
+            // mutation treatment there
+            sd.mutate = if sd.name.contains("/tcp-est/") { 2 } else { 0 };
+            if sd.name.contains("/tcp-est/") {
+                sd.pin = 2;
+            }
+            if sd.name.ends_with("/tcp-est/ack-of-fin") || sd.name.ends_with("/tcp-est/fin-ack-of-fin") {
+                sd.pin = 1;
+            }
+        }
         if sd.name.contains("/tcp-b/") {
             let open = sd.name.ends_with("/open");
             let est = sd.name.contains("/tcp-b/est/");
             sd.pin = if open { 1 } else if est { 0 } else { 2 };
             // one handshake segment per socket gets the full mutation treatment, the others
             // differ from it in the sequence number only
-            sd.mutate = sd.name.ends_with("7fffffe0/open");
+            sd.mutate = if sd.name.ends_with("7fffffe0/open") { 2 } else { 0 };
         } else if sd.name.contains("frag/") {
             // lone first / middle / last fragments are always available to the sequence search
             sd.pin = 1;
